@@ -93,21 +93,25 @@ fn new_core(cfg: (u8, u8, u8)) -> Core {
 fn exec_hist(cfg: (u8, u8, u8), hist: &[String], cold: bool) -> String {
   let mut core = new_core(cfg);
   let mut out = Vec::new();
+  let mut cursor = 0usize;
   for op in hist {
     let p = &mut core.memory as *mut MemoryAreas;
     if op == "r" {
-      if cold { core.cache = CodeCache::new(); }
+      if cold { core.cache = CodeCache::new(); cursor = 0; }
       if core.registers.sp < 0xdf00 || core.registers.sp > 0xdfe0 { core.registers.sp = 0xdf40; }
       let ip0 = core.registers.ip as usize;
       let bank0 = core.memory.cart_state.get_rom_bank();
-      // cache observation (hooks): would the lookup hit, and how many guest bytes does the block that ran cover
-      let mut h = 2;
-      if cfg!(feature = "jit") && crate::mem::can_dynarec(ip0) {
-        core.cache.set_rom_bank(bank0);
-        h = if core.cache.verif_block(ip0).is_some() { 1 } else { 0 };
-      }
+      // cache observation through the read-only hook, WITHOUT touching the cache's own bank selection: the block that
+      // is cached for ip0 after the run was appended by this run (miss) iff it lies beyond the cursor seen so far
+      let dyn_ = cfg!(feature = "jit") && crate::mem::can_dynarec(ip0);
       core.run_code_block();
-      let bt = if h != 2 { core.cache.set_rom_bank(bank0); core.cache.verif_block(ip0).map(|b| b.2).unwrap_or(9999) } else { 0 };
+      let (mut h, mut bt) = (2, 0);
+      if dyn_ {
+        match core.cache.verif_block(ip0) {
+          Some((off, len, b)) => { h = if off >= cursor { 0 } else { 1 }; bt = b; if off + len > cursor { cursor = off + len; } },
+          None => { h = 3; },
+        }
+      }
       let r = &core.registers;
       let (af, bc, de, hl, sp, ip) = (r.af, r.bc, r.de, r.hl, r.sp, r.ip);
       out.push(format!("{},{},{},{},{},{},{},{},{},{},{}", af, bc, de, hl, sp, ip, core.memory.cart_state.get_rom_bank(), ip0, bank0, h, bt));
